@@ -12,9 +12,12 @@ type of its node.  `Covers idx r`: exactly one value per witness node.
 -/
 import SimplicityModel.RoutesProps
 import SimplicityModel.RoutesExecProps
+import SimplicityModel.RoutesSerial
+import SimplicityModel.Prog.JetsElements
+import SimplicityModel.Prog.JetsElementsProps
 
 namespace Props.C12
-open Routes Prog BM4
+open Routes Prog BM4 Wire
 
 /-! ### route 1: construction-time witnesses + `finalize_unpruned` -/
 
@@ -412,6 +415,79 @@ theorem finalize_pruned_serialisation_decodes_partial (jt : JetTypes) (p : Plan)
   | fuel => rfl
   | panic => rfl
 
+/-- the same statement for `finalize_pruned` as a whole (the cut is the one of the model's run) -/
+theorem finalize_pruned_own_stream_decodes_partial (jt : JetTypes) (p : Plan) (cand : Nat → Option Val)
+    (re : RunEnv) (ar : Arrows) (r : Witnesses) (tr : Prog.Trace)
+    (hu : routeU jt p true cand = .ok ar r) (hr : trackedRun p ar r re = .ok tr) :
+    ownSerialisationDecodes jt p true (cutOf p (sidesOf re.ids tr.sides))
+      (finalizePruned jt false p true cand re) = true := by
+  rw [finalizePruned_of_ok hu hr]
+  exact finalize_pruned_serialisation_decodes_partial jt p true cand _
+
+/-- **Own serialisation decodes — against the decoder itself** (`Prog.decodeRedeem`, the model of
+`RedeemNode::decode` of C01/C02, and `Prog.encode`, the model of `to_vec_with_witness`).
+
+Setting: `finalize_unpruned` returned a program (`hu`), the model's run of it succeeded with record
+`tr` (`hr`), and `finalizePruned` returned arrows `ar'` and values `r'` on the indices of the unpruned
+plan (`h`; types from the second inference pass, `leak = false`: the code as it is).  The serialised
+program is given in the decoder's form: a non-empty list `N` of fewer than 2^32 well-formed wire nodes
+in canonical order that converts to a plan `q` without open `disconnect`, and `q` is the pruned
+program renumbered (`Routes.Renumbers`): its visible nodes are exactly the remaining nodes
+(`cutOf … keep`) of the pruned plan (`Prog.prunePlan` by the run's record), with the children renamed
+by `σ`; the other entries of `q` are hidden nodes.  The remaining hypotheses concern `q` alone: the
+driver's unification fuel suffices for it, its annotations exist (jets have roots and costs), and
+**its identity roots are pairwise different** — the decoder's sharing rule, the hypothesis that
+cannot be dropped: a program with two nodes of one identity root is rejected by `RedeemNode::decode`
+(the encoder would have written one node; then `q` is a quotient, not a renumbering).
+
+Then (1) type inference on `q` — what the decoder does — gives every visible node exactly the arrow
+the pruned program has at the corresponding node: *the decoder's types are the pruned program's
+types*; (2) `encode` writes `N` and the compact encodings of the values `r'` in `q`'s node order;
+(3) `decodeRedeem` accepts these two byte strings and returns `q`, those arrows, those annotations
+and, as witness values, exactly the values `r'`.
+
+Proof: `Routes.infer_renumbered` (both typings are *least typings*, a notion free of variable
+numbering: `inferM_typing`, `inferM_least`, `sol_of_typing`) + C01's `Prog.roundtrip_canonical`.
+What is *not* proved is that the encoder's node list for the pruned program is such an `N` for every
+program (C01's open part for programs that are not yet in canonical order); the harness sends every
+pruned program's own bytes through `RedeemNode::decode` and the model's decoder. -/
+theorem finalize_pruned_serialisation_decodes (tb : Tables) (hof : ∀ j, tb.ofName (tb.nameOf j) = some j)
+    (p : Plan) (cand : Nat → Option Val) (re : RunEnv) (hok : planOK p = true)
+    (ar : Arrows) (r : Witnesses) (tr : Prog.Trace) (ar' : Arrows) (r' : Witnesses)
+    (hu : routeU tb.jetTy p true cand = .ok ar r) (hr : trackedRun p ar r re = .ok tr)
+    (h : finalizePruned tb.jetTy false p true cand re = .ok ar' r')
+    (N : List (WNode tb.J)) (q : Plan) (σ σ' : Nat → Nat) (cm : Nat → Nat)
+    (hN0 : N ≠ []) (hNlt : N.length < 2 ^ 32) (hNok : NodesOk 0 N)
+    (hcan : canonicalOk N.toArray = true) (hconv : convert tb.nameOf N.toArray = .ok q)
+    (hdisc : ∀ nd ∈ q.toList, ∀ a, nd ≠ .disconnect a none)
+    (hR : Renumbers σ σ' q (Prog.prunePlan tr.sides re.ids cm p) (cutOf p (sidesOf re.ids tr.sides)).keep)
+    (hfuel : infer tb.jetTy q true ≠ .fuel)
+    (han : ∀ arQ, infer tb.jetTy q true = .ok arQ →
+      ∃ an, annots tb.jetCmr tb.jetCost q arQ (fun j => witBits r' (σ j)) = some an ∧
+        (ihrList q an).eraseDups.length = (ihrList q an).length) :
+    ∃ arQ an,
+      infer tb.jetTy q true = .ok arQ ∧
+      (∀ j nd, q[j]? = some nd → isHidden nd = false →
+        srcOf arQ j = srcOf ar' (σ j) ∧ tgtOf arQ j = tgtOf ar' (σ j)) ∧
+      encode tb.jc tb.ofName q an true (fun j => witBits r' (σ j)) =
+        some (padToByte (encProgram tb.jc N),
+          padToByte ((wIdx q.toList 0).filterMap fun j => witBits r' (σ j)).flatten) ∧
+      decodeRedeem tb (padToByte (encProgram tb.jc N))
+          (padToByte ((wIdx q.toList 0).filterMap fun j => witBits r' (σ j)).flatten) =
+        .ok ⟨q, arQ, (wIdx q.toList 0).filterMap (fun j => (witBits r' (σ j)).map fun b => (j, b)), an⟩ :=
+  finalizePruned_decodes tb hof p cand re hok ar r tr ar' r' hu hr h N q σ σ' cm hN0 hNlt hNok hcan hconv
+    hdisc hR hfuel han
+
+/-- the ingredient that closes "the decoder's types are the pruned program's types": the types of a
+program do not depend on the numbering of its nodes -/
+theorem types_independent_of_numbering (jt : JetTypes) (σ σ' : Nat → Nat) (q P : Plan) (mask : Nat → Bool)
+    (hR : Renumbers σ σ' q P mask)
+    (hshape : ∀ i nd, P[i]? = some nd → mask i = true → shapeOK nd = true ∧ ∀ c ∈ nd.children, c < P.size)
+    (arP arQ : Arrows) (hP : Prog.inferM jt P mask true = .ok arP) (hQ : infer jt q true = .ok arQ) :
+    ∀ j nd, q[j]? = some nd → isHidden nd = false →
+      srcOf arQ j = srcOf arP (σ j) ∧ tgtOf arQ j = tgtOf arP (σ j) :=
+  infer_renumbered hR hshape hP hQ
+
 /-- `comp (pair L(ε) unit) (case (take (comp w unit)) (drop (comp (comp w pin₂) unit)))`: the witness
 node `w` (index 0) is used in the executed left branch, where nothing constrains its type, and in
 the right branch, which pins it to `2`. -/
@@ -607,5 +683,73 @@ example : finalizePruned noJets codeLeaks exFailPlan true (fun _ => some (.inr .
   decide +kernel
 example : carries (finalizePruned noJets codeLeaks exFailPlan true (fun _ => none) exRun) [(0, .inl .unit)] = true := by
   decide +kernel
+
+/-! ### non-vacuity of `finalize_pruned_serialisation_decodes`
+
+`exPlan` with the candidate `L(0)`: the run records the left side of the outer case (node 6) only;
+the pruned program is `comp (pair wit unit) (assertl (take unit) #h)` — seven wire nodes, the hidden
+node an entry of its own, plan nodes 6 and 7 renumbered to 5 and 6.  Every hypothesis of the theorem
+is discharged except the existence of the annotations and the pairwise difference of the seven
+identity roots, which are SHA-256 values and are not evaluated in the kernel. -/
+
+def tbE : Tables := ⟨JetsE.J, JetsE.jc, JetsE.nameOf, JetsE.ofName, JetsE.jetTy, JetsE.jetCmr, JetsE.jetCost⟩
+def zeros256 : List Bool := List.replicate 256 false
+def exN : List (WNode JetsE.J) :=
+  [.witness, .unit, .pair 0 1, .take 1, .hidden zeros256, .case 3 4, .comp 2 5]
+def exQ : Plan := #[.witness, .unit, .pair 0 1, .take 1, .hidden 0, .assertl 3 0, .comp 2 5]
+def exσ : Nat → Nat := fun j => if j = 5 then 6 else if j = 6 then 7 else j
+def exσ' : Nat → Nat := fun i => if i = 6 then 5 else if i = 7 then 6 else i
+def exCandL : Nat → Option Val := fun _ => some (.inl (.inl .unit))
+
+theorem bitsNat_zeros : ∀ n acc,
+    (List.replicate n false).foldl (fun acc b => acc * 2 + (if b then 1 else 0)) acc = acc * 2 ^ n := by
+  intro n
+  induction n with
+  | zero => intro acc; simp
+  | succ n ih => intro acc; simp [List.replicate_succ, ih, Nat.pow_succ]; rw [Nat.mul_assoc, Nat.mul_comm 2]
+
+theorem carries_ok {o : Outcome} {ws : Witnesses} (h : carries o ws = true) : ∃ ar, o = .ok ar ws := by
+  cases o with
+  | ok ar r => exact ⟨ar, by simp [carries] at h; rw [h]⟩
+  | _ => simp [carries] at h
+
+theorem finalize_pruned_serialisation_example
+    (han : ∀ arQ, infer tbE.jetTy exQ true = .ok arQ →
+      ∃ an, annots tbE.jetCmr tbE.jetCost exQ arQ (fun j => witBits [(0, .inl .unit)] (exσ j)) = some an ∧
+        (ihrList exQ an).eraseDups.length = (ihrList exQ an).length) :
+    ∃ ar' arQ an,
+      finalizePruned tbE.jetTy false exPlan true exCandL exRun = .ok ar' [(0, .inl .unit)] ∧
+      infer tbE.jetTy exQ true = .ok arQ ∧
+      tgtOf arQ 0 = tgtOf ar' 0 ∧
+      decodeRedeem tbE (padToByte (encProgram tbE.jc exN))
+          (padToByte ((wIdx exQ.toList 0).filterMap fun j => witBits [(0, .inl .unit)] (exσ j)).flatten) =
+        .ok ⟨exQ, arQ,
+          (wIdx exQ.toList 0).filterMap (fun j => (witBits [(0, .inl .unit)] (exσ j)).map fun b => (j, b)), an⟩ := by
+  have hs : runSides tbE.jetTy exPlan true exCandL exRun = some [(6, false)] := by decide +kernel
+  obtain ⟨ar, r, tr, hu, hr, hsides⟩ := runSides_spec hs
+  have hc : carries (finalizePruned tbE.jetTy false exPlan true exCandL exRun) [(0, .inl .unit)] = true := by
+    decide +kernel
+  obtain ⟨ar', h⟩ := carries_ok hc
+  have hconv : convert tbE.nameOf exN.toArray = .ok exQ := by
+    have : bitsNat zeros256 = 0 := by unfold bitsNat zeros256; rw [bitsNat_zeros]
+    simp [convert, convertGo, convNode, exN, exQ, needVisible, hiddenAt, this]
+    rfl
+  have hNok : NodesOk 0 exN := by
+    refine ⟨trivial, trivial, ⟨by decide, by decide⟩, by simp [WNode.Ok], ?_, ⟨by decide, by decide⟩,
+      ⟨by decide, by decide⟩, trivial⟩
+    show zeros256.length = 256
+    rw [zeros256, List.length_replicate]
+  have hR : Renumbers exσ exσ' exQ (Prog.prunePlan tr.sides exRun.ids (fun _ => 0) exPlan)
+      (cutOf exPlan (sidesOf exRun.ids tr.sides)).keep := by
+    rw [hsides]
+    exact renumbersB_sound (by decide +kernel)
+  have hfuel : infer tbE.jetTy exQ true ≠ .fuel := by
+    have : (match infer tbE.jetTy exQ true with | .fuel => false | _ => true) = true := by decide +kernel
+    intro e; rw [e] at this; cases this
+  obtain ⟨arQ, an, h1, h2, _, h4⟩ :=
+    finalize_pruned_serialisation_decodes tbE JetsE.ofName_nameOf exPlan exCandL exRun (by decide) ar r tr ar'
+      [(0, .inl .unit)] hu hr h exN exQ exσ exσ' (fun _ => 0) (by intro e; cases e) (by decide) hNok (by decide) hconv
+      (by intro nd hnd a e; subst e; simp [exQ] at hnd) hR hfuel han
+  exact ⟨ar', arQ, an, h, h1, (h2 0 .witness rfl rfl).2, h4⟩
 
 end Props.C12
